@@ -97,6 +97,25 @@ fn cli(c: &[i64]) -> Vec<i64> {
     o
 }
 
+/// sub-commands without an on/off word: 100 engine <rpm>, 101 engine-shutdown, 102 machine-shutdown
+fn cli_plain(c: &[i64]) -> Vec<i64> {
+    let (sub, compat, arg) = (c[1], c[2], c[3]);
+    let w = workdir(); let sock = w.join("s.sock"); let _ = std::fs::remove_file(&sock);
+    let cfg = w.join("c.conf"); std::fs::write(&cfg, format!("[unix_listener]\npath = \"{}\"\n", sock.display())).unwrap();
+    let listener = UnixListener::bind(&sock).unwrap();
+    let version = if compat == 0 { (env_version().0, env_version().1, 99) } else if compat == 1 { (env_version().0 + 1, env_version().1, 0) } else { (env_version().0, env_version().1 * 10, 0) };
+    let h = stub(listener, version);
+    let mut cmd = std::process::Command::new("/verif/.build/cargo-repo/debug/glonaxctl");
+    cmd.arg("-c").arg(&cfg);
+    match sub { 100 => { cmd.arg("engine").arg(arg.to_string()); } 101 => { cmd.arg("engine-shutdown"); } 102 => { cmd.arg("machine-shutdown"); } _ => return vec![-2] }
+    let st = cmd.stdout(std::process::Stdio::null()).stderr(std::process::Stdio::null()).status();
+    let (_flags, frames) = h.join().unwrap_or((-1, vec![]));
+    let _ = std::fs::remove_dir_all(&w);
+    let mut o = vec![(st.map(|s| s.success()).unwrap_or(false) && !frames.is_empty()) as i64, frames.len() as i64];
+    for (t, p) in frames { o.push(t as i64); o.push(p.len() as i64); o.extend(p.iter().map(|b| *b as i64)); }
+    o
+}
+
 fn env_version() -> (u8, u8) {
     let ma: u8 = glonax::consts::VERSION_MAJOR.parse().unwrap_or(0); let mi: u8 = glonax::consts::VERSION_MINOR.parse().unwrap_or(0); (ma, mi)
 }
@@ -133,7 +152,7 @@ fn input_bin(c: &[i64]) -> Vec<i64> {
 }
 
 pub fn exec(c: &[i64]) -> Vec<i64> {
-    match c[0] { 1 => step(c), 2 => cli(c), 3 => input_bin(c), _ => vec![-2] }
+    match c[0] { 1 => step(c), 2 => cli(c), 3 => input_bin(c), 4 => cli_plain(c), _ => vec![-2] }
 }
 
 pub fn gen(o: &Opts, sink: &mut dyn FnMut(Vec<i64>, String)) {
@@ -179,6 +198,12 @@ pub fn gen(o: &Opts, sink: &mut dyn FnMut(Vec<i64>, String)) {
             }
         }
     }
+    // sub-commands without a word: engine <rpm> over the whole u16 range (boundaries of every speed limit in the system),
+    // engine-shutdown, machine-shutdown; compatible and incompatible daemons
+    let rpms: Vec<i64> = if o.tier_thorough { (0..=65535i64).step_by(257).chain([0, 1, 799, 800, 801, 899, 900, 901, 2099, 2100, 2101, 2199, 2200, 2201, 8031, 8032, 32767, 32768, 65534, 65535]).collect() }
+                         else { vec![0, 1, 800, 899, 900, 901, 1500, 2100, 2101, 2200, 8032, 32768, 65535] };
+    for (i, rpm) in rpms.iter().enumerate() { put!(vec![4, 100, if i % 7 == 3 { 1 } else { 0 }, *rpm]); }
+    for compat in [0i64, 1, 2] { put!(vec![4, 101, compat, 0]); put!(vec![4, 102, compat, 0]); }
     // the real glonax-input binary: start-up lock, failsafe registration, only Motion/Engine on the wire
     let mut rng = Rng::new(o.seed, 18);
     let nb = if o.tier_thorough { 200 } else { 12 };
